@@ -12,6 +12,7 @@ import (
 	"github.com/deepteams/webp/internal/container"
 	"github.com/deepteams/webp/internal/lossless"
 	"github.com/deepteams/webp/internal/lossy"
+	"github.com/deepteams/webp/internal/verifhook"
 	"github.com/deepteams/webp/sharpyuv"
 )
 
@@ -687,6 +688,7 @@ func encodeLossless(img image.Image, opts *EncoderOptions) ([]byte, uint32, erro
 	}
 	bs, err := lossless.Encode(argb, width, height, lcfg)
 	argbPool.Put(ab)
+	verifhook.PoolPut("webp.argb")
 	if err != nil {
 		return nil, 0, fmt.Errorf("webp: lossless encode: %w", err)
 	}
@@ -770,6 +772,7 @@ func encodeLosslessToWriter(w io.Writer, img image.Image, opts *EncoderOptions) 
 			return err
 		})
 	argbPool.Put(ab) // Return buffer to pool after encoder is done with argb.
+	verifhook.PoolPut("webp.argb")
 	if err != nil {
 		return fmt.Errorf("webp: lossless encode: %w", err)
 	}
